@@ -48,3 +48,13 @@ package middleware
 //@ func CorsMiddleware$1$1 [C20]
 //@   requires nextServed == 0
 //@   ensures nextServed == 1
+
+// A connection upgrade (the tail websocket) goes through the compression wrapper: when
+// the wrapped writer can be hijacked the wrapper hands the request on to it - a
+// request with the right credentials is let through whatever Accept-Encoding it sends
+// - and only a writer that cannot be hijacked is answered with an error.
+//@ func (*gzipResponseWriter).Hijack [C20]
+//@   flag checks=-index,-assert
+//@   modifies hijacked
+//@   check a-hijackable-writer-is-hijacked: ok ==> hijacked == old(hijacked) + 1
+//@   check only-a-writer-that-cannot-is-refused: !ok ==> hijacked == old(hijacked) && result2 != nil
